@@ -43,6 +43,7 @@ type Oblig struct {
 	AltGoal *Term
 	altSMT  string
 	linSMT  string
+	relSMT  string
 	// filled by solver
 	SMT      string
 	Result   string
